@@ -464,7 +464,9 @@ def run_shard(desc, acc):
             # shrink lazily: one full shrink per distinct (sub-oracle, shape of the smallest failing subtree)
             s1 = smallest_failing_subtree(t, r[0])
             key = (r[0], shape(s1))
-            if key in seen_viol:
+            if key in seen_viol or len(seen_viol) >= 24:
+                # 24 distinct (sub-oracle, shape) records per shard are shrunk and confirmed from a clean process;
+                # further failures are counted
                 acc.count_violation(r[0])
                 continue
             v = violation(s1, r) or violation(t, r)
